@@ -10,6 +10,7 @@ from spec_classes.errors import FrozenInstanceError
 from spec_classes.types import MISSING, Attr
 from spec_classes.utils.method_builder import MethodBuilder
 from spec_classes.utils.mutation import (
+    _restored_on_error,
     invalidate_attrs,
     mutate_attr,
     prepare_attr_value,
@@ -285,9 +286,12 @@ class DelAttrMethod(MethodDescriptor):
             )  # respects default factories and subclass overrides; mutate-safe
 
             if default is MISSING:
-                self.__delattr__.__raw__(self, attr)
-                if not skip_invalidation:
-                    invalidate_attrs(self, attr)
+                # (Invalidating dependants may run user code; if that fails,
+                # the attribute is put back.)
+                with _restored_on_error(self, enabled=not skip_invalidation):
+                    self.__delattr__.__raw__(self, attr)
+                    if not skip_invalidation:
+                        invalidate_attrs(self, attr)
                 return None
 
             # As in the constructor, defaults are prepared before being stored.
